@@ -393,6 +393,29 @@ fn free_run(n: usize, kinds: &[String], flavours: &[String], seed: u64, out: &mu
         }
         std::thread::sleep(Duration::from_micros(300));
     }
+    // Settle: after its last JobDone every worker goes back to the receiver lock; one acquires it and blocks in recv,
+    // the others block on the lock.  Wait until those final hook events are in THIS run's log -- a worker that is
+    // descheduled here (loaded machine) would otherwise report its last Lock into the next run's log (a false alarm
+    // seen once under load: "unexplained event: Lock" at the start of the following configuration).
+    if done {
+        // (a pool that lost a worker never settles: wait long once, then briefly)
+        static SETTLE_FAILED: std::sync::atomic::AtomicBool = std::sync::atomic::AtomicBool::new(false);
+        let settle_deadline = Instant::now() + if SETTLE_FAILED.load(Ordering::SeqCst) { Duration::from_millis(50) } else { Duration::from_secs(20) };
+        loop {
+            let st = ctl.st.lock().unwrap();
+            let count = |pt: Point| st.log.iter().filter(|o| matches!(o, Obs::Hook(q, _) if *q == pt)).count();
+            let settled = count(Point::BeforeLock) >= count(Point::JobDone) + n && count(Point::LockAcquired) >= count(Point::Received) + 1;
+            drop(st);
+            if settled {
+                break;
+            }
+            if Instant::now() >= settle_deadline {
+                SETTLE_FAILED.store(true, Ordering::SeqCst);
+                break;
+            }
+            std::thread::sleep(Duration::from_micros(300));
+        }
+    }
     std::thread::sleep(Duration::from_millis(2));
     let st = ctl.st.lock().unwrap();
     let mut last_task: HashMap<usize, usize> = HashMap::new();
